@@ -388,7 +388,9 @@ def execute(scn):
             rem = (D - rec["elapsed_us"]) / 1e6
             lo, hi = min(h, rem), min(h + jit, rem)
             s = rec["sleep"]
-            if not (isinstance(s, (int, float)) and lo - 1e-9 <= s <= hi + 1e-9):
+            # where the remaining deadline is the binding bound its sub-millisecond accuracy is C02's business
+            tol = 1e-3 if rem < h + jit else 1e-9
+            if not (isinstance(s, (int, float)) and lo - tol <= s <= hi + tol):
                 viol.append(V("R4", "wait is outside [hint, hint + jitter_s] capped at the remaining deadline",
                               {"hint": h, "jitter_s": jit, "remaining_s": rem, "slept": s, "value": rec["value"]}))
             probes["hint_honoured"] = probes.get("hint_honoured", 0) + 1
